@@ -629,7 +629,7 @@ def check_c01(run: Run, prog: Program) -> None:
         "first unused contravariant index of its target - that the library's bookkeeping does exactly this is what E14 decides under C05) with the Levi-Civita tensor as "
         "the table of permutation signs. join(p, q), meet(l, m) in the plane and join(p, q, r), meet(e, f, g) in 3-space are incident with every argument, do not vanish "
         "identically, and change only by a scalar with the order of the arguments; the round trips meet(join(p, q), join(p, r)) ~ p and join(meet(l, m), meet(l, n)) ~ l "
-        "hold; the line join(p, q) of 3-space (a contravariant 2-tensor) cut with a plane gives, in both argument orders, a point of the plane that lies on the line through p and q. NOT decided: the other branches over lines of 3-space (subspace with point, coplanar lines after Blinn), the power-of-two "
+        "hold; the line join(p, q) of 3-space (a contravariant 2-tensor) cut with a plane gives, in both argument orders, a point of the plane that lies on the line through p and q. The line joined with a third point r is, in both orders (through Tensor.__mul__, interpreted), the plane through p, q and r; and for the coplanar lines join(p, q), join(p, r) - the branch after Blinn, with every one of the 64 pivots its argmax can select - the meet is p and the join is the plane through p, q, r. NOT decided: the power-of-two "
         "normalisation (taken to be a positive scalar), the entries of LeviCivitaTensor, the co-/contravariant switch of 3D lines, and floating-point exactness."
     )
     run.trusted += ["LeviCivitaTensor(n) holds the permutation signs", "_divide_by_power_of_two multiplies by a positive scalar",
@@ -649,7 +649,8 @@ def check_c10(run: Run, prog: Program) -> None:
     run.clause = (
         "decides TWO constructions of the plane as polynomial identities (E19.metric): SubspaceTensor.parallel and LineTensor.mirror are interpreted on a symbolic line "
         "(a, b, c) and point (x, y, w); their joins and meets go through the interpreted duality dispatcher (as under C01), the line at infinity and the circular points "
-        "I, J are read from the module (complex constants a + b i with i^2 = -1). The parallel passes through the point and has the normal of the line; the mirror image "
+        "I, J are read from the module (complex constants a + b i with i^2 = -1). The parallel passes through the point and has the normal of the line - likewise for a plane of 3-space, where the construction runs through the line at infinity of "
+        "the plane (a 2-tensor), its contravariant form and Tensor.__mul__, all interpreted; the mirror image "
         "built from the circular points is the Cartesian reflection (x, y) - 2 (a x + b y + c w) / (a^2 + b^2) (a, b) for every representative (the complex factor "
         "cancels). NOT decided - the larger part of C10: perpendicular and project (boolean-mask assignment into an uninitialised buffer; its complete initialisation is "
         "a clause of C04), everything in 3-space (lines as 2-tensors, basis_matrix), is_perpendicular / is_parallel / is_cocircular / is_coplanar (tolerances), "
